@@ -1,5 +1,6 @@
 import G3D.Proofs.Move
 import G3D.Proofs.Move2
+import G3D.Proofs.MoveReturned
 /-! # C07 — `move` translates the object in place and keeps it self-consistent
     `x.move v` is modelled as a function returning (receiver after the call, returned object), WITH the cached
     derived fields of the code (carrier line of Segment / HalfLine, plane and centre of ConvexPolygon, vertex / edge /
@@ -70,4 +71,9 @@ theorem polyhedron_returned_eq_receiver_partial (B : Polyhedron) (v : V3) (B' R 
 
 /-- the pinned behaviour (stale carrier line) breaks well-formedness: D2 witness -/
 theorem pinned_segment_move_was_wrong : ∃ s : Seg, s.WF ∧ ∃ v, ¬ (s.movePinned v).1.WF := Seg.movePinned_breaks_WF
+
+/-- ConvexPolygon: the returned polygon IS the receiver after the move (field by field) -/
+theorem polygon_returned_eq_receiver (P : Polygon) (hv : P.Valid) (v : V3) : (P.move v).2 = .ok (P.move v).1 :=
+  Polygon.move_returned_eq_receiver P hv v
+
 end G3D.Props.C07
